@@ -44,6 +44,7 @@ Definition NumF (scalar_mode : bool) (tbl : oracle) : Num float := {|
   nmin := Fmin; nmax := Fmax;
   ltb := PrimFloat.ltb; leb := PrimFloat.leb; eqb := PrimFloat.eqb;
   isnan := PrimFloat.is_nan; isfinite := Fisfinite;
+  isposinf := fun x => PrimFloat.eqb x PrimFloat.infinity; isneginf := fun x => PrimFloat.eqb x PrimFloat.neg_infinity;
   fexp := fun x => olook tbl 0 x 0%float; flog := fun x => olook tbl 1 x 0%float;
   fcos := fun x => olook tbl 2 x 0%float; fpow := fun a b => olook tbl 3 a b
 |}.
